@@ -4,17 +4,17 @@ use super::*;
 use crate::verif_spec::fmt;
 use crate::verif_spec::src::Src;
 
-fn check_ext_chunk(data: &[u8]) -> bool {
+pub(crate) fn check_ext_chunk(data: &[u8]) -> bool {
     let got = ExternalFile::parse_chunk(data);
     let decoded_ok = got.is_ok();
     let mut want: Option<usize> = None;
-    let mut offs = [0usize; 3];
+    let mut offs = [0usize; 16];
     if let Some(n) = fmt::external_files_count(data) {
         let mut p = 12;
         let mut ok = true;
         let mut k = 0usize;
         while k < n as usize {
-            if k >= 3 {
+            if k >= 16 {
                 ok = false;
                 break;
             }
